@@ -172,3 +172,31 @@ Definition model_fail_where (c : mcase) : nat :=
       else (5 + (fix go (l : list (call * outcome)) (i : nat) :=
                  match l with [] => i | p :: t => if call_agrees b p then go t (S i) else i end) (o_calls c) 0%nat)%nat
   end.
+
+(* ---------- control parameters of the sequence element helpers: observed outcome of the REAL
+   method against Deco/SeqCtl.v (oracle only).  0 = as specified, 2 = not. *)
+From SC Require Import Deco.SeqCtl.
+
+Record ccase := mkccase {
+  c_helper : chelper;
+  c_args : cargs;
+  oc_outcome : Z;              (* 0 | -1 TypeError | -2 ValueError | -3 IndexError | other *)
+  oc_result : list cval;       (* the collection of the returned object *)
+  oc_recv : list cval;         (* the receiver's collection afterwards *)
+  oc_same : bool               (* returned object is the receiver *)
+}.
+
+Fixpoint cvals_eqb (a b : list cval) : bool :=
+  match a, b with
+  | [], [] => true
+  | x :: a', y :: b' => cval_eqb x y && cvals_eqb a' b'
+  | _, _ => false
+  end.
+
+Definition check_ctl (c : ccase) : nat :=
+  let '(r, recv, same) := expected (c_helper c) (c_args c) in
+  if match r with
+     | Ok l => Z.eqb (oc_outcome c) 0 && cvals_eqb l (oc_result c) && Bool.eqb same (oc_same c)
+     | Err e => Z.eqb (oc_outcome c) (- Z.of_nat (err_code e))
+     end && cvals_eqb recv (oc_recv c)
+  then 0%nat else 2%nat.
